@@ -123,7 +123,7 @@ Print Assumptions check_step_keeps_node.
    cache behind; every path still computes the reference result, given the commit-info
    hypothesis at each reuse -- or two different blocks share a block hash. *)
 Theorem stale_rounds_harmless :
-  forall (S : msig) (base : list (app S)) (n : node S) (sts : list stale) (p : path S) (b : block),
+  forall (S : msig) (base : list (app S)) (n : node S) (sts : list (stale S)) (p : path S) (b : block),
     n_cache S n = None -> stale_ok S n sts -> path_ok S base b p -> b_hash b <> [] ->
     commit_as_prepared S (fold_left (apply_stale S) sts n) b ->
     run_path S p (fold_left (apply_stale S) sts n) b
@@ -289,3 +289,41 @@ Theorem local_answer_used_refuted :
     <> fst (end_all_leaky toy bool N bool submit_descriptor (fun e => e) (fun s => s + 1000) [toy_gov] s l2).
 Proof. exact LocalOracle.local_answer_used_refuted. Qed.
 Print Assumptions local_answer_used_refuted.
+
+(* ---- rounds aborted by a recovered panic (transient node-local fault) ---- *)
+Theorem aborted_round_resets_cache :
+  forall (S : msig) (n : node S) (b' : block) (dirty : sg_state S),
+    n_cache S (apply_stale S n (StaleAborted S b' dirty)) = None /\
+    same_base S n (apply_stale S n (StaleAborted S b' dirty)).
+Proof. exact MuxProofs.aborted_round_resets_cache. Qed.
+Print Assumptions aborted_round_resets_cache.
+
+(* After a ProcessProposal that panicked at an arbitrary point (any dirty working tree), every
+   path executes any block -- in particular the very block that was being processed -- exactly
+   as a replica without the fault. (stale_rounds_harmless / replicas_agree_with_failed_rounds
+   cover aborted rounds mixed with the other failed rounds as well.) *)
+Theorem aborted_round_harmless :
+  forall (S : msig) (base : list (app S)) (n : node S) (b' : block) (dirty : sg_state S) (p : path S) (b : block),
+    path_ok S base b p ->
+    run_path S p (apply_stale S n (StaleAborted S b' dirty)) b
+    = reference S (path_cfg S p n) (path_regs S p n) (n_committed S n) b.
+Proof. exact MuxProofs.aborted_round_harmless. Qed.
+Print Assumptions aborted_round_harmless.
+
+(* both deferred panic handlers end with resetProposal() (read from mux.go by gen muxorder) *)
+Theorem mux_panic_handlers_reset :
+  process_panic_handler_resets = true /\ prepare_panic_handler_resets = true.
+Proof. exact MuxProofs.mux_panic_handlers_reset. Qed.
+Print Assumptions mux_panic_handlers_reset.
+
+(* without the reset the decided block is executed on the half-executed tree (witness) *)
+Theorem aborted_round_without_reset_refuted :
+  exists (n : node toy) (b : block) (dirty : sg_state toy),
+    n_cache toy n = None /\
+    finalize toy (abort_round toy false n b dirty) b
+    <> reference toy (n_cfg toy n) (n_apps toy n) (n_committed toy n) b /\
+    finalize toy (abort_round toy true n b dirty) b
+    = reference toy (n_cfg toy n) (n_apps toy n) (n_committed toy n) b /\
+    reference toy (n_cfg toy n) (n_apps toy n) (n_committed toy n) b <> None.
+Proof. exact MuxProofs.aborted_round_without_reset_refuted. Qed.
+Print Assumptions aborted_round_without_reset_refuted.
